@@ -910,11 +910,19 @@ func (c *localClient) SendTreeRequest(ctx context.Context, req syncdeps.Request,
 // eviction; MarkTreeDeleted only takes note (the deletion state writes the status itself).
 type TreeManager struct {
 	l *Local
-	// OnCallout is invoked first thing when the deletion worker calls DeleteTree / MarkTreeDeleted.
-	OnCallout func(call, id string)
-	Marked    []string
-	Deleted   []string
-	Failed    map[string]error // DeleteTree / MarkTreeDeleted errors of the current worker run
+	// OnCallout is invoked first thing when the deletion worker calls DeleteTree / MarkTreeDeleted,
+	// AfterCallout right before a successful call returns to the worker.
+	OnCallout    func(call, id string)
+	AfterCallout func(call, id string)
+	// CrashAfterDelete: DeleteTree(id) deletes the tree's storage, then the process "dies":
+	// the worker's context is cancelled and the call reports an error, so the worker neither
+	// writes the Deleted status nor visits another id.
+	CrashAfterDelete string
+	Crashed          bool
+	cancelWorker     context.CancelFunc
+	Marked           []string
+	Deleted          []string
+	Failed           map[string]error // DeleteTree / MarkTreeDeleted errors of the current worker run
 }
 
 func (t *TreeManager) Init(*app.App) error         { return nil }
@@ -954,7 +962,21 @@ func (t *TreeManager) MarkTreeDeleted(ctx context.Context, spaceId, treeId strin
 		t.OnCallout("MarkTreeDeleted", treeId)
 	}
 	t.Marked = append(t.Marked, treeId)
+	if t.AfterCallout != nil {
+		t.AfterCallout("MarkTreeDeleted", treeId)
+	}
 	return nil
+}
+
+// ErrCrashed is what a DeleteTree interrupted by the emulated process death reports.
+var ErrCrashed = errors.New("delsim: process died")
+
+// Shutdown cancels the context of the running worker (deletion manager Close during a run).
+func (t *TreeManager) Shutdown() {
+	if t.cancelWorker != nil {
+		t.cancelWorker()
+		t.Crashed = true
+	}
 }
 
 func (t *TreeManager) DeleteTree(ctx context.Context, spaceId, treeId string) (err error) {
@@ -976,6 +998,13 @@ func (t *TreeManager) DeleteTree(ctx context.Context, spaceId, treeId string) (e
 	t.Deleted = append(t.Deleted, treeId)
 	delete(t.l.Trees, treeId)
 	tr.Close()
+	if t.CrashAfterDelete == treeId {
+		t.Shutdown()
+		return ErrCrashed
+	}
+	if t.AfterCallout != nil {
+		t.AfterCallout("DeleteTree", treeId)
+	}
 	return nil
 }
 
@@ -986,7 +1015,13 @@ func (t *TreeManager) DeleteTree(ctx context.Context, spaceId, treeId string) (e
 func (l *Local) RunWorker(perm int) {
 	l.order.Perm = perm
 	l.TM.Failed = map[string]error{}
-	l.Deleter.Delete(context.Background())
+	l.TM.Crashed = false
+	ctx, cancel := context.WithCancel(context.Background())
+	l.TM.cancelWorker = cancel
+	l.Deleter.Delete(ctx)
+	cancel()
+	l.TM.cancelWorker = nil
+	l.TM.CrashAfterDelete = ""
 }
 
 // Restart closes everything and starts a new process lifetime on the same database.
